@@ -8,6 +8,7 @@ vm.go / ref_counter.go / stack.go / slot.go maintain it, `reach` = what a walk f
 -/
 import NeoModel.Proofs.VmAcctBase
 import NeoModel.Proofs.VmAcctGas
+import NeoModel.Proofs.VmAcctSpecSize
 import NeoModel.Proofs.ScriptCheck
 import NeoModel.Generated.Opcodes
 namespace NeoModel.C12
@@ -227,5 +228,96 @@ example : isScriptCorrect [0x11, 0x22, 0x03, 0x38, 0x40] = true ∧
     ScriptCheck.boundaries [0x11, 0x22, 0x03, 0x38, 0x40] = some [0, 1, 3, 4] ∧
     isScriptCorrect [0x22, 0x03, 0x01, 0x07, 0x00, 0x40] = false := by
   decide
+
+end NeoModel.C12
+
+namespace NeoModel.C12
+
+/-! ## Part 4: the same theorems for the executable NeoVM specification `NeoModel.Vm`
+(Model/Vm/Machine.lean: `step`, `run`, `Cfg.price`; the machine that C13 ties to the real VM
+instruction by instruction). -/
+
+open NeoModel.Vm in
+/-- the regenerated price table satisfies the hypothesis of `spec_total` / `spec_gas_bound` for any
+base ≥ 1: every valid opcode except RET, SYSCALL, ABORT, ABORTMSG has price ≥ 1 -/
+theorem spec_price_ok (base : Nat) (hb : 1 ≤ base) : PriceOk (tablePrice base) := tablePrice_ok base hb
+
+open NeoModel.Vm in
+/-- **total, for the specification machine.** For every program, arguments, initial heap, gas limit
+`L` and price getter `p` with `PriceOk p`, the run of `NeoModel.Vm` is in HALT or FAULT after at
+most `(L + 1) · (MaxInvocationStackSize + 1) + 2` steps. Hypotheses on `Cfg`: a price getter is
+set (`cfg.price = some p`) and `PriceOk p`; on the machine: a gas limit is set (`some L`).
+(RET: price 0 in the table, lowers the depth or halts; SYSCALL, ABORT, ABORTMSG: price 0, FAULT in
+this machine; the implicit RET past the end of the script is not charged.) -/
+theorem spec_total (cfg : Cfg) (p : UInt8 → Nat) (hp : cfg.price = some p) (hpos : PriceOk p)
+    (prog : Array UInt8) (args : List Item) (L : Nat) (heap : Heap) :
+    (run cfg ((L + 1) * (maxInvocationStackSize + 1) + 2) (Vm.load prog args (some L) heap)).state = .halt ∨
+    (run cfg ((L + 1) * (maxInvocationStackSize + 1) + 2) (Vm.load prog args (some L) heap)).state = .fault := by
+  obtain ⟨hg, hmu⟩ := load_good prog args L heap
+  have hstop := run_stops cfg p hp hpos L ((L + 1) * (maxInvocationStackSize + 1) + 1) _ hg (by rw [hmu]; exact Nat.le_refl _)
+  have hgood := run_good cfg p hp hpos L ((L + 1) * (maxInvocationStackSize + 1) + 1 + 1) _ hg
+  have hnb := hgood.nobrk
+  cases hs : (run cfg ((L + 1) * (maxInvocationStackSize + 1) + 1 + 1) (Vm.load prog args (some L) heap)).state with
+  | none => exact absurd hs hstop
+  | halt => exact Or.inl rfl
+  | fault => exact Or.inr rfl
+  | brk => exact absurd hs hnb
+
+open NeoModel.Vm in
+/-- **gas_bound, for the specification machine.** After any number of steps, a machine that is in
+HALT (or still running) has consumed at most the limit. -/
+theorem spec_gas_bound (cfg : Cfg) (p : UInt8 → Nat) (hp : cfg.price = some p) (hpos : PriceOk p)
+    (prog : Array UInt8) (args : List Item) (L : Nat) (heap : Heap) (n : Nat)
+    (hh : (run cfg n (Vm.load prog args (some L) heap)).state = .halt) :
+    (run cfg n (Vm.load prog args (some L) heap)).gas ≤ L :=
+  (run_good cfg p hp hpos L n _ (load_good prog args L heap).1).gas (by rw [hh]; decide)
+
+open NeoModel.Vm in
+/-- **limits, for the specification machine.** For every price getter and gas limit (set or not):
+in every state of the run that has not faulted the invocation depth is ≤ 1024, every try stack has
+at most 16 entries and at most 2048 references are reachable (the machine faults on
+`reach > MaxStackSize` by construction; the hypothesis is that the loaded arguments respect it).
+Integers are within 256 bits by the type of `Item.int` (`Int256` carries the range proof). -/
+theorem spec_limits (cfg : Cfg) (prog : Array UInt8) (args : List Item) (gasLimit : Option Nat) (heap : Heap)
+    (h0 : reach (Vm.load prog args gasLimit heap) ≤ maxStackSize) (n : Nat) :
+    Lim (run cfg n (Vm.load prog args gasLimit heap)) := by
+  apply run_lim
+  refine ⟨fun _ => by simp [Vm.load, Vm.depth, maxInvocationStackSize], fun _ => ?_, fun _ => h0⟩
+  intro f hf
+  simp only [Vm.load, List.mem_singleton] at hf
+  subst hf
+  intro c hc
+  simp only [List.mem_singleton] at hc
+  subst hc
+  simp [maxTryNestingDepth]
+
+/- Full statement (NOT proved): in every non-faulted state of `run`, every ByteString item and every
+Buffer object (on a stack, in a slot, inside a compound, as pending exception) is at most
+`maxItemSize` long. Missing: a pass over all ~80 cases of `execPure` (and `convert`, `cloneAll`,
+`mapSet`) showing that each preserves the bound, and a bound on the length of the decimal printing
+inside the diagnostic `outOfRangeMsg`. Proved instead: the three places where a byte string of
+data-dependent size is CREATED respect the bound. -/
+open NeoModel.Vm in
+/-- **item size, partial.** (a) the operand of every decoded instruction (hence every PUSHDATA*
+item) is at most MaxSize long; (b) CAT and NEWBUFFER — the instructions whose result is longer than
+their inputs — either fault or produce a buffer of at most MaxSize bytes. (SUBSTR, LEFT, RIGHT,
+MEMCPY, SETITEM/REVERSEITEMS on a buffer never lengthen anything; CONVERT copies or makes ≤ 33
+bytes; those are not part of this theorem.) -/
+theorem spec_item_size_partial :
+    (∀ (p : Array UInt8) (ip : Nat) (ins : Instr), decode p ip = .ok ins → ins.param.length ≤ maxItemSize) ∧
+    (∀ (op : Op), op = .cat ∨ op = .newBuffer → ∀ (param : Bytes) (st : List Item) (h : Heap) (out : Outcome),
+      execPure op param st h = .ok out →
+      ∃ st' h' b, out = .next (.buffer h.size :: st') h' ∧ h'.getBuf h.size = some b ∧ b.length ≤ maxItemSize) :=
+  ⟨decode_param_size, cat_newbuffer_size⟩
+
+open NeoModel.Vm in
+/-- non-vacuity: the hypotheses are met by the node's own configuration (price table with base 30,
+the default ExecFeeFactor), for any program; e.g. for `PUSH1 PUSH2 ADD` under limit 300 the driver
+of stream `vmops` prints HALT with gas 300 (= the limit) and FAULT under limit 299. -/
+example : ∃ (cfg : Cfg) (p : UInt8 → Nat), cfg.price = some p ∧ PriceOk p ∧
+    ((run cfg ((300 + 1) * (maxInvocationStackSize + 1) + 2) (Vm.load #[0x11, 0x12, 0x9E] [] (some 300))).state = .halt ∨
+     (run cfg ((300 + 1) * (maxInvocationStackSize + 1) + 2) (Vm.load #[0x11, 0x12, 0x9E] [] (some 300))).state = .fault) :=
+  ⟨{ price := some (tablePrice 30) }, tablePrice 30, rfl, spec_price_ok 30 (by decide),
+    spec_total _ _ rfl (spec_price_ok 30 (by decide)) _ _ _ _⟩
 
 end NeoModel.C12
